@@ -12,7 +12,7 @@ use crate::driver::ReqCfg;
 use crate::engine::{explore, replay_trace, validate_traces, Limits, Report, Sys, Tier, Violation};
 
 pub const RULE_C13: &str = "original requests {GET, POST with Content-Length: 3, POST chunked, PUT, DELETE, HEAD, GET with two cookie and two authorization fields, POST with Expect: 100-continue answered by the redirect itself} on {http://a.test/p, https://a.test/p, http://a.test:8080/p}, each carrying authorization: S3CRET, cookie: k=ORIG, x-keep: 1 (the main family also referer, origin, proxy-authorization); redirect-chain graph to depth 4 (thorough: depth 5 and 24 Locations) (state = hop + full fingerprint of the real Prepare flow + reference URI): at every hop every status {301,302,303,307,308} x every Location of a 27-entry pool (incl. three spellings of a redirect to the request's own URI, backslash and embedded-tab forms that the url crate resolves to another host; absolute http/https for hosts a.test/b.test/A.TEST with ports none/80/443/8080, hosts a.test.evil.example and a.tes that share a prefix with the original host, ws:// and ftp:// on the original host, scheme-relative, path-absolute, relative, ../, query-only) x policy {Never, SameHost} chosen independently per hop - all chains of length 1..4 incl. leave-and-return and scheme up/downgrades; in every state the head of the redirected request is written under two buffer schedules and read back. plus 3-hop chains (4 methods x 5 statuses x both policies x same-host / cross-host targets) in which the caller attaches its own Cookie and Authorization to every request before sending it: the next request must not carry them. distinct = distinct chain states (flow fingerprint x reference URI x hop)";
-pub const RULE_C14: &str = "GET requests on bases {http://a.test/p, http://a.test/d/e/f?x=1, https://a.test:8443/, http://a.test, http://a.test?x=1}, plus GET / POST (Content-Length, chunked) requests on https and http bases carrying authorization, proxy-authorization, cookie, referer, origin, user-agent, accept-encoding (depth 2, statuses 301/302/307); redirect-chain graph to depth 3 (thorough 4): at every hop statuses {302,307} x a ~50-entry Location pool (absolute http/https with/without/default ports, scheme-relative, path-absolute, ./ ../ ../../.. relative, trailing slash, query-only, empty, commas in path and query, userinfo, each also with #fragment, 2-3 Location fields where the last wins) plus malformed values (missing, non-UTF-8, empty host, //, port 99999, unterminated IPv6 literal) x both policies; new flow's URI compared on components with an RFC 3986 section 5.2 reference that tracks its own current URI, and the request line / Host header of every state's head checked; plus 3 statuses x 3 Locations x 3 continuations of the head x every cut inside the Location value: a partly arrived Location must not be followed. distinct = distinct chain states";
+pub const RULE_C14: &str = "GET requests on bases {http://a.test/p, http://a.test/d/e/f?x=1, https://a.test:8443/, http://a.test, http://a.test?x=1}, plus GET / POST (Content-Length, chunked) requests on https and http bases carrying authorization, proxy-authorization, cookie, referer, origin, user-agent, accept-encoding (depth 2, statuses 301/302/307), and a GET whose caller names the Host header itself; redirect-chain graph to depth 3 (thorough 4): at every hop statuses {302,307} x a ~50-entry Location pool (absolute http/https with/without/default ports, scheme-relative, path-absolute, ./ ../ ../../.. relative, trailing slash, query-only, empty, commas in path and query, userinfo, each also with #fragment, 2-3 Location fields where the last wins) plus malformed values (missing, non-UTF-8, empty host, //, port 99999, unterminated IPv6 literal) x both policies; new flow's URI compared on components with an RFC 3986 section 5.2 reference that tracks its own current URI, and the request line / Host header of every state's head checked; plus 3 statuses x 3 Locations x 3 continuations of the head x every cut inside the Location value: a partly arrived Location must not be followed. distinct = distinct chain states";
 
 fn c13_cfgs(tier: Tier) -> Vec<Arc<ChainCfg>> {
     let mut locs: Vec<Loc> = [
@@ -146,6 +146,11 @@ fn c14_cfgs(tier: Tier) -> Vec<Arc<ChainCfg>> {
     for uri in ["http://a.test/p", "http://a.test/d/e/f?x=1", "https://a.test:8443/", "http://a.test", "http://a.test?x=1"] {
         let r = ReqCfg::new("GET", "1.1", uri).orig("x-keep", "1");
         out.push(Arc::new(ChainCfg { prop: "C14", req: r, body: vec![], statuses: vec![302, 307], locs: locs.clone(), max_hops: if tier.thorough() { 4 } else { 3 }, check_credentials: false, check_target: true, refuse_expect: false }));
+    }
+    // a caller that names the Host itself (same as the URI's): on another host the header must name that host
+    {
+        let r = ReqCfg::new("GET", "1.1", "http://a.test/p").orig("host", "a.test").orig("x-keep", "1");
+        out.push(Arc::new(ChainCfg { prop: "C14", req: r, body: vec![], statuses: vec![302], locs: vec![Loc::one("/same"), Loc::one("http://b.test/other"), Loc::one("//A.TEST/back"), Loc::one("https://c.test:8443/z")], max_hops: 3, check_credentials: false, check_target: true, refuse_expect: false }));
     }
     // requests carrying the headers a real caller sends along (credentials, Referer, Origin, framing):
     // whatever the library does with them on a redirect, the target and the error behaviour stay the same
